@@ -590,7 +590,14 @@ class RealPayloadDecoder(AbstractSimplePayloadDecoder):
                 'Unknown encoding (tag %s)' % fo
             )
 
-        yield self._createComponent(asn1Spec, tagSet, value, **options)
+        try:
+            component = self._createComponent(asn1Spec, tagSet, value, **options)
+
+        except (ValueError, OverflowError):
+            # character form may spell NaN or a number float can't hold
+            raise error.PyAsn1Error('Unsupported Real value %r' % (value,))
+
+        yield component
 
 
 class AbstractConstructedPayloadDecoder(AbstractPayloadDecoder):
